@@ -129,6 +129,72 @@ fn main() {
         std::process::exit(1);
       }
     }
+    // aliasing twins asked concurrently: two callers alternate between arguments that would share
+    // a slot in a truncated / direct-mapped / packed-key memo (year +-256, +-60, term index +-24),
+    // on the cheap lock-free-looking paths (solar terms, leap month of a year). Preemption between
+    // any two basic blocks is Miri's; a mixed record shows up as a mismatch with the reference.
+    "e" => {
+      let term = |y: isize, i: isize| -> String {
+        match catch_unwind(|| SolarTerm::from_index(y, i)) {
+          Ok(t) => format!("{} {} {:016x}", t.get_year(), t.get_index(), t.get_cursory_julian_day().to_bits()),
+          Err(_) => "refused".to_string(),
+        }
+      };
+      let leap = |y: isize| -> String {
+        match catch_unwind(|| LunarYear::from_year(y).get_leap_month()) {
+          Ok(l) => format!("{}", l),
+          Err(_) => "refused".to_string(),
+        }
+      };
+      // (base, twin) pairs
+      let pairs: Vec<((isize, isize), (isize, isize))> = vec![((2000, 3), (2256, 3)), ((2000, 12), (976, 12)), ((2020, 0), (2080, 0)), ((1999, 27), (2000, 3))];
+      let years: Vec<(isize, isize)> = vec![(2020, 2276), (2033, 2093)];
+      let mut refs: Vec<(String, String)> = Vec::new();
+      for (a, b) in &pairs {
+        refs.push((term(a.0, a.1), term(b.0, b.1)));
+      }
+      let mut lrefs: Vec<(String, String)> = Vec::new();
+      for (a, b) in &years {
+        lrefs.push((leap(*a), leap(*b)));
+      }
+      let pairs = Arc::new(pairs);
+      let refs = Arc::new(refs);
+      let years = Arc::new(years);
+      let lrefs = Arc::new(lrefs);
+      let bar = Arc::new(Barrier::new(2));
+      let mut hs = Vec::new();
+      for t in 0..2usize {
+        let (pairs, refs, years, lrefs, bar) = (pairs.clone(), refs.clone(), years.clone(), lrefs.clone(), bar.clone());
+        hs.push(thread::spawn(move || {
+          bar.wait();
+          for round in 0..3usize {
+            for k in 0..pairs.len() {
+              // thread 0 starts with the base, thread 1 with the twin; they swap every round
+              let first_is_base = (t + round) % 2 == 0;
+              let (x, rx) = if first_is_base { (pairs[k].0, &refs[k].0) } else { (pairs[k].1, &refs[k].1) };
+              let got = term(x.0, x.1);
+              if &got != rx {
+                println!("C10-MISMATCH thread {} SolarTerm::from_index({}, {}) = {} but alone it is {}", t, x.0, x.1, got, rx);
+                std::process::exit(1);
+              }
+            }
+            if round == 1 {
+              for k in 0..years.len() {
+                let (y, ry) = if t == 0 { (years[k].0, &lrefs[k].0) } else { (years[k].1, &lrefs[k].1) };
+                let got = leap(y);
+                if &got != ry {
+                  println!("C10-MISMATCH thread {} leap month of {} = {} but alone it is {}", t, y, got, ry);
+                  std::process::exit(1);
+                }
+              }
+            }
+          }
+        }));
+      }
+      for h in hs {
+        h.join().unwrap();
+      }
+    }
     _ => {
       eprintln!("unknown scenario");
       std::process::exit(2);
